@@ -72,7 +72,15 @@ class NotEqualConstant(Logic):
         
         eq = self.wire('eq')
         EqualConstant(self, 'eq', a, v, eq)
-        Not(self, 'r', eq, r)
+
+        if (r.getWidth() == 1):
+            Not(self, 'r', eq, r)
+        else:
+            # the flag is one bit wide, the upper bits of a wider result are 0
+            from .bitwise import Buf
+            neq = self.wire('neq')
+            Not(self, 'neq', eq, neq)
+            Buf(self, 'r', neq, r)
                 
 class EqualConstant(Logic):
     def __init__(self, parent, name: str, a: Wire, v: int, r: Wire):
@@ -109,7 +117,13 @@ class EqualConstant(Logic):
         if (w == 1):
             # very simple case
             if (v == 0):
-                Not(self, 'buf', a, r)
+                if (r.getWidth() == 1):
+                    Not(self, 'buf', a, r)
+                else:
+                    # the flag is one bit wide, the upper bits of a wider result are 0
+                    na = self.wire('na')
+                    Not(self, 'na', a, na)
+                    Buf(self, 'buf', na, r)
             else:
                 Buf(self, 'not', a, r)
                 
